@@ -131,7 +131,8 @@ fn macro_json(m: &Macro) -> Value {
     let parser = Punctuated::<Expr, Token![,]>::parse_terminated;
     if let Ok(args) = parser.parse2(m.tokens.clone()) {
         v["args"] = Value::Array(args.iter().map(expr_json).collect());
-    } else if name == "matches" {
+    }
+    if name == "matches" {
         // matches!(expr, pat [if guard])
         let p = |input: parse::ParseStream| -> Result<(Expr, Pat, Option<Expr>)> {
             let e: Expr = input.parse()?;
